@@ -219,7 +219,10 @@ class Interp:
                     val = self.expr(f, v["init"], env, depth)
                     env[v["name"]] = _wrap(val, v.get("ty"))
                 elif "arr_n" in v:
-                    env[v["name"]] = {}
+                    # a static array starts out zero (its first use); an automatic one undefined
+                    env[v["name"]] = ({i: 0 for i in range(v["arr_n"])}
+                                      if v.get("cat") == "slocal" and isinstance(v["arr_n"], int) and v["arr_n"] <= 4096
+                                      else {})
                 elif v.get("ty", "").startswith("struct ") and not v["ty"].endswith("*"):
                     env[v["name"]] = {}
                 else:
